@@ -562,6 +562,9 @@ func run(c *core.Ctx) int {
 			c.Distinct("exec_plans", so.Plan)
 			c.Count("traces_config_"+so.Reuse, int64(so.Traces))
 			c.Distinct("config_reuse_modes", so.Reuse)
+			for k, n := range so.Shapes {
+				c.Count("calls_shape_"+k, int64(n))
+			}
 			for k, n := range so.Ctx {
 				c.Count("traces_ctx_"+k, int64(n))
 			}
@@ -663,6 +666,17 @@ func run(c *core.Ctx) int {
 	if c.DistinctN("probe_ctx_flavours") < len(flavours) || c.DistinctN("probe_shapes") < len(probeShapes) {
 		c.Inconclusive("real-sleep-probe-flavour-or-shape-missing")
 	}
+	for _, sh := range callShapes {
+		if sh == "" {
+			sh = "flat"
+		}
+		if c.Counter("calls_shape_"+sh) == 0 {
+			c.Inconclusive("call-shape-never-used:" + sh)
+		}
+	}
+	if c.Counter("calls_shape_all_ones_pattern") == 0 {
+		c.Inconclusive("all-ones-argument-pattern-never-used")
+	}
 	for _, m := range reuseModes {
 		if c.Counter("traces_config_"+m) == 0 {
 			c.Inconclusive("config-reuse-mode-never-reached:" + m)
@@ -702,6 +716,8 @@ func run(c *core.Ctx) int {
 		"for the same call, offset and scaling and (scaling is seconds or the script's trace also differs between processes); otherwise it is dismissed as chance and counted.")
 	c.Extra("config_reuse_rule", "every instance has a default-valued ModuleConfig; per (process variant, script) one of: fresh NewModuleConfig().WithName(\"\") per instance; ONE untouched NewModuleConfig() value for the whole process, one instance at a time; "+
 		"one base per script with base.WithName(unique) for all six instances derived before any instantiation; base instantiated first and every other config derived from it afterwards; one base value for all six instances, three alive at once per engine. Trace equality across instances/engines/processes decides.")
+	c.Extra("call_shape_rule", "each script step reaches its WASI import through a PRNG-chosen guest call shape (same in every process/engine/instance): flat pass-through wrapper (1/2), or after a helper call with 8/16/24 all-ones i64 arguments or 12 all-ones f64 arguments, or from 3 nested guest frames, or both; "+
+		"1/8 of the steps are preceded by fd_filestat_set_times(fd,-1,-1,0) / fd_advise(fd,-1,-1,0) / fd_seek(fd,-1,..). Counters calls_shape_* are calls of reference traces.")
 	c.Extra("context_rule", "interpreter/A (reference trace) is called under context.Background(); the other five instances of a script in a process are called under value-only, WithCancel (never cancelled), WithTimeout(1h), WithDeadline(+50y) and value(WithCancel) contexts, rotated with variant and script; all six traces must be byte-identical. "+
 		"Real-sleep probes: engines x 6 context flavours x 9 shapes (poll_oneoff clock relative/absolute, realtime/monotonic, with fd_write / fd_read subscriptions, two clocks; sched_yield) x timeouts of 1 hour and 1 year; verdict = subject not returned although its control (timeout 0) returned and >= 1000 further control calls completed in the process during a >= 30 s watchdog.")
 	c.Assume("scripts have at most 200 calls, so the fake monotonic clock (1ms per reading) stays far below the current Unix time in any scaling")
